@@ -16,7 +16,7 @@ ASSUMPTIONS = ["rows are identified by a unique rid column; which rows a removed
 CASE_TIMEOUT = 300
 
 
-def _frame(rng, rid0, n, nparts, same_domain=False):
+def _frame(rng, rid0, n, nparts, same_domain=False, cat_partition=False):
     import pandas as pd
     d = {"rid": np.arange(rid0, rid0 + n, dtype="int64"),
          "v0": rng.integers(-1000, 1000, n).astype("int64"),
@@ -25,7 +25,11 @@ def _frame(rng, rid0, n, nparts, same_domain=False):
         d["p0"] = np.array(["a", "b", "c", "d"], dtype=object)[rng.integers(0, 4, n)] if not same_domain else rng.integers(0, 3, n).astype("int64")
     if nparts >= 2:
         d["p1"] = rng.integers(0, 3, n).astype("int64")
-    return pd.DataFrame(d)
+    df = pd.DataFrame(d)
+    if cat_partition and nparts >= 1 and not same_domain:
+        # a categorical key: groupby(observed=False) yields a group for every category / combination, present or not
+        df["p0"] = pd.Categorical(df["p0"], categories=["a", "b", "c", "d", "never"])
+    return df
 
 
 def gen_cases(tier, seed):
@@ -55,7 +59,8 @@ def gen_cases(tier, seed):
         cases.append({"id": "H/%d/%d" % (seed, i), "nparts": nparts, "init_seed": int(rng.integers(0, 2 ** 31)),
                       "init_rows": int(rng.integers(1, 60)), "init_rgo": [None, 4, 9, 20][int(rng.integers(0, 4))], "ops": ops,
                       # directory nesting order other than the frame's column order; both key columns over the same values
-                      "nesting_reversed": bool(nparts == 2 and i % 4 in (1, 2)), "same_domain": bool(nparts == 2 and i % 8 in (1, 5))})
+                      "nesting_reversed": bool(nparts == 2 and i % 4 in (1, 2)), "same_domain": bool(nparts == 2 and i % 8 in (1, 5)),
+                      "cat_partition": bool(nparts >= 1 and i % 5 == 3)})
     return cases
 
 
@@ -157,7 +162,7 @@ def run_case(case):
     res = {"features": [], "nontrivial": False, "failures": [], "counters": counters}
     try:
         rng0 = np.random.default_rng([case["init_seed"], 1])
-        df = _frame(rng0, 0, case["init_rows"], nparts, case.get("same_domain", False))
+        df = _frame(rng0, 0, case["init_rows"], nparts, case.get("same_domain", False), case.get("cat_partition", False))
         kw = {"file_scheme": "hive"}
         if pcols:
             kw["partition_on"] = pcols
@@ -188,7 +193,7 @@ def run_case(case):
             with fsmon.Audit(path) as aud:
                 try:
                     if k == "append":
-                        new = _frame(rng, next_rid, op["rows"], nparts, case.get("same_domain", False))
+                        new = _frame(rng, next_rid, op["rows"], nparts, case.get("same_domain", False), case.get("cat_partition", False))
                         next_rid += len(new)
                         kw = {"file_scheme": "hive", "append": True}
                         if pcols:
@@ -200,7 +205,7 @@ def run_case(case):
                         model |= set(new["rid"].tolist())
                         pf = None
                     elif k == "overwrite":
-                        new = _frame(rng, next_rid, op["rows"], nparts, case.get("same_domain", False))
+                        new = _frame(rng, next_rid, op["rows"], nparts, case.get("same_domain", False), case.get("cat_partition", False))
                         next_rid += len(new)
                         # restrict new data to a few partitions so that others must stay untouched
                         keys = sorted(set(new["p0"]))[:op["keys"]]
@@ -241,7 +246,7 @@ def run_case(case):
                         pf.remove_row_groups([pf.row_groups[i] for i in sel], sort_pnames=op["sort_pnames"])
                         model -= removed
                     elif k == "write_rgs":
-                        new = _frame(rng, next_rid, op["rows"], nparts, case.get("same_domain", False))
+                        new = _frame(rng, next_rid, op["rows"], nparts, case.get("same_domain", False), case.get("cat_partition", False))
                         next_rid += len(new)
                         sk = {None: None, "path": (lambda rg: rg.columns[0].file_path), "nrows_desc": (lambda rg: -rg.num_rows),
                               "rid": (lambda rg: int.from_bytes(rg.columns[0].meta_data.statistics.min or b"\0", "little", signed=True)
